@@ -43,6 +43,11 @@ fn main() {
                 _ => machinery(&format!("no check registered for {}", prop)),
             }
         }
+        Some("allocfail") => {
+            let k: usize = args.get(2).and_then(|s| s.parse().ok()).unwrap_or_else(|| usage());
+            smlmc::e2::allocfail_child(k);
+            std::process::exit(0);
+        }
         Some("replay") => {
             let path = args.get(2).cloned().unwrap_or_else(|| usage());
             let txt = std::fs::read_to_string(&path).unwrap_or_else(|e| machinery(&format!("{}: {}", path, e)));
